@@ -84,5 +84,18 @@ def run_states(task, fn, prop):
         r.transitions += 1
         if lattice.nontrivial(masks):
             r.sigs.add(lattice.signature(k, masks))
-        fn(r, k, masks, task)
+        try:
+            fn(r, k, masks, task)
+        except Exception as e:
+            # the library returned something the invariant code cannot even read
+            # (never happens on the unchanged tree: the exploration is deterministic)
+            import traceback
+            tb = traceback.format_exc().strip().splitlines()
+            r.violation(prop, "harness.exception", task.get("backend", "py"),
+                        "harness.exception/%s" % type(e).__name__,
+                        dict(state_case(k, masks), harness_exception=True, task={
+                            kk: vv for kk, vv in task.items() if kk not in ("shard", "nshards")}),
+                        "invariant evaluates", "%s: %s" % (type(e).__name__, e),
+                        "evaluating the invariant raised: " + " | ".join(tb[-3:]),
+                        (k, nspikes(masks)))
     return r
